@@ -558,7 +558,12 @@ func (im *impl) metaOracle(h *vh.H, op string, ts *typeSet, md protoreflect.Mess
 				h.Fail("c03-spelling-differs:"+label, op, fmt.Sprintf("canonical %.300s gives %.300s; variation %.300s gives %.300s", base, dumpMsgOut(ts, m0), doc, dumpMsgOut(ts, got)))
 				return
 			}
-			h.Count("c03.variation.ok." + label)
+			for _, l := range strings.Split(label, "+") {
+				h.Count("c03.variation.ok." + l)
+			}
+			if strings.Contains(label, "+") {
+				h.Count("c03.variation.ok.(combination)")
+			}
 		}
 	case "fault":
 		class, kind, pos := "?", "?", "?"
